@@ -422,12 +422,21 @@ pub fn gen_c10(out: &mut Out, rng: &mut Rng, thorough: bool) {
     for _ in 0..(if thorough { 4000 } else { 400 }) {
         let mut line = String::from("cli tcp -");
         for _ in 0..rng.range(2, 12) {
+            // the error kinds include those the library produces itself (InvalidData, InvalidInput,
+            // UnexpectedEof, WriteZero …): where an error comes from cannot be told from its kind
+            let k = match rng.below(8) {
+                0 => "id".to_string(),
+                1 => "ii".to_string(),
+                2 => "ue".to_string(),
+                3 => "bp".to_string(),
+                _ => format!("k{}", rng.range(1, 5)),
+            };
             match rng.below(8) {
-                0 => line.push_str(&format!(" | call RSI w=a{},xk{}", rng.range(1, 7), rng.range(1, 5))),
-                1 => line.push_str(&format!(" | call RSI w=a8 f=xk{}", rng.range(1, 5))),
+                0 => line.push_str(&format!(" | call RSI w=a{},x{k}", rng.range(1, 7))),
+                1 => line.push_str(&format!(" | call RSI w=a8 f=x{k}")),
                 2 => line.push_str(&format!(" | call RSI w=a{},z", rng.range(1, 7))),
-                3 => line.push_str(&format!(" | call RSI w=p,a8 f=p,xk{}", rng.range(1, 5))),
-                4 => line.push_str(&format!(" | call RSI w=xk{}", rng.range(1, 5))),
+                3 => line.push_str(&format!(" | call RSI w=p,a8 f=p,x{k}")),
+                4 => line.push_str(&format!(" | call RSI w=x{k}")),
                 _ => line.push_str(" | call RSI r=e"),
             }
         }
